@@ -518,7 +518,8 @@ def run(chk):
                        "endless sequences cut after 40 firings or 200 ms; non-trivial = distinct (machine, delivered "
                        "inputs) with >= 2 emissions and oracle + differential runs satisfied")
     chk.cov["input_distribution"] = {"per_factory": per, **hist}
-    chk.add_samples([{"case": c[0], "trace": c[1]} for c in cases[:: max(1, len(cases) // 6)]][:6])
+    short = [c for c in cases if len(c[0]) + len(c[1]) < 700]
+    chk.add_samples([{"case": c[0], "trace": c[1]} for c in short[:: max(1, len(short) // 6)]][:6])
     return chk.finish(
         trusted_extra=["proxy scheduler and boundary log of harness/k2m.py; the timer-firing driver, spy iterable and "
                        "finite callback tables of harness/props/C37.py",
